@@ -246,6 +246,36 @@ def lambda (name : Name) (size : Nat) (a : NT) : Option NT :=
       | [] => XR.nan
       | i :: ev => if i < size then a.data (idx.take a.inputs.length ++ ev) else XR.nan⟩
 
+/-- eager_cat_homogeneous: `inputs = OrderedDict([(part_name, None)])` updated by every part's inputs;
+    every part is aligned with `part_name` as the LEADING axis (its own size) and expanded, the data are
+    concatenated along that axis, `part_name` is deleted and `name : Bint[Σ sizes]` put in front.  -/
+def cat (name partName : Name) (parts : List NT) : Option NT :=
+  match parts with
+  | [] => none
+  | p0 :: _ =>
+    let rest := odErase (parts.foldl (fun acc p => odUpdate acc p.inputs) [(partName, 0)]) partName
+    match parts.mapM (fun p => p.inputs.lookup partName) with
+    | none => none
+    | some sizes =>
+      if parts.all (fun p => p.shape == p0.shape) &&
+          (parts.zip sizes).all (fun ps => SubDict ps.1.inputs ((partName, ps.2) :: rest)) &&
+          !(rest.map (·.1)).contains name then
+        some ⟨(name, sizes.foldl (· + ·) 0) :: rest, p0.shape, fun idx =>
+          match idx with
+          | [] => XR.nan
+          | g :: tail =>
+            match locate sizes g 0 with
+            | none => XR.nan
+            | some (k, loc) =>
+              match parts[k]? with
+              | some p => p.readAt (partName :: rest.map (·.1)) (loc :: tail.take rest.length) (tail.drop rest.length)
+              | none => XR.nan⟩
+      else none
+
+/-- The sizes of `partName` in the parts, as `Cat.__init__` reads them. -/
+def catSizes (partName : Name) (parts : List NT) : Option (List Nat) :=
+  parts.mapM (fun p => p.inputs.lookup partName)
+
 def xrToNat? : XR → Option Nat
   | XR.fin q => if q.den = 1 ∧ 0 ≤ q.num then some q.num.toNat else none
   | _ => none
@@ -400,6 +430,10 @@ mutual
     | Term.lambda n size body =>
       match peval body with
       | some rb => lambda n size rb
+      | none => none
+    | Term.cat n pn sizes parts =>
+      match pevalList parts with
+      | some rs => if catSizes pn rs == some sizes then cat n pn rs else none
       | none => none
     | _ => none
   def pevalList : List Term → Option (List NT)
